@@ -550,9 +550,28 @@ pub fn plan(tier: &str) -> (PropMeta, Vec<Job>) {
             jobs.push(Job { prop: "C04".into(), tier: tier.into(), spec: serde_json::to_value(CrashJob { cfg: cfg.clone(), workloads: chunk.to_vec(), full_torn: !quick }).unwrap() });
         }
     }
+    let mut special = 0;
+    if quick {
+        // one level deeper on two configurations (wait and no-wait, index cache on): states like "a freshly
+        // rolled segment holding exactly one flushed message" need three operations after the first send
+        let mut deep: Vec<Vec<WOp>> = Vec::new();
+        for a in &alphabet {
+            for b in &alphabet {
+                for c in &alphabet {
+                    deep.push(vec![WOp::Send(2), a.clone(), b.clone(), c.clone()]);
+                }
+            }
+        }
+        special += deep.len();
+        for nowait in [false, true] {
+            let cfg = NodeCfg { threshold: 2, seg_size: super::plogp::SEG_SMALL, nowait, tick: 1, ..Default::default() };
+            for chunk in deep.chunks(16) {
+                jobs.push(Job { prop: "C04".into(), tier: tier.into(), spec: serde_json::to_value(CrashJob { cfg: cfg.clone(), workloads: chunk.to_vec(), full_torn: false }).unwrap() });
+            }
+        }
+    }
     // retention: deletion of expired segments and creation of the replacement; size-based deletion of
     // the oldest segments; purge (every segment and offset file deleted, log restarts at 0)
-    let mut special = 0;
     for nowait in [false, true] {
         let cfg = NodeCfg { threshold: 2, seg_size: super::plogp::SEG_SMALL, nowait, expiry_us: 10_000_000, tick: 1, ..Default::default() };
         let wls = vec![
@@ -578,7 +597,7 @@ pub fn plan(tier: &str) -> (PropMeta, Vec<Job>) {
         id: "C04",
         level: "fault_enumeration",
         rule: format!(
-            "workloads: send 2 followed by every sequence of {depth} operations over {:?} (plus a workload with journalled commands, and time-based retention, size-based retention and purge workloads under wait and no-wait) on the real write path, for each of {} configurations (wait/no-wait x fsync x index cache); a monitor closure running on the single blocking-pool thread photographs the data directory between every two file operations. Crash images: every photograph; between two photographs, with every path creation/removal applied (those operations are awaited by the server), every subset of the queued file writes, and every torn length of every appended / overwritten file ({}) with the other queued writes landed and not landed. A server is started on each image, polled, sent to twice and restarted once more. An image is non-trivial and distinct by its bytes",
+            "workloads: send 2 followed by every sequence of {depth} operations over {:?} (quick tier: also every sequence of 3 on the two configurations without fsync and with the index cache; plus a workload with journalled commands, and time-based retention, size-based retention and purge workloads under wait and no-wait) on the real write path, for each of {} configurations (wait/no-wait x fsync x index cache); a monitor closure running on the single blocking-pool thread photographs the data directory between every two file operations. Crash images: every photograph; between two photographs, with every path creation/removal applied (those operations are awaited by the server), every subset of the queued file writes, and every torn length of every appended / overwritten file ({}) with the other queued writes landed and not landed. A server is started on each image, polled, sent to twice and restarted once more. An image is non-trivial and distinct by its bytes",
             alphabet.iter().map(|o| o.short()).collect::<Vec<_>>(),
             cfgs.len(),
             if quick { "all lengths up to 64 bytes, else the boundaries 1,7,8,23,24,25,mid,len-1" } else { "all lengths" }
